@@ -55,6 +55,11 @@ pub struct Rich {
     /// is the attacker, with a pool in it)
     pub sibling: std::collections::BTreeSet<Pubkey>,
     pub cfg_att: usize,
+    /// the attacker's own positions in pool p0 (plain SPL token / Token-2022 position token) and own bundle with one open
+    /// bundled position: "a token of the right kind, but of another position"
+    pub att_pos_plain: usize,
+    pub att_pos_te: usize,
+    pub att_bundle: usize,
 }
 
 fn dynamic(spec: &RichSpec, n: u8) -> bool {
@@ -221,10 +226,23 @@ impl Rich {
         let ix = w.ix_init_adaptive_fee_tier(cfg, af_index + 1, ts, att, att, 3000, &AfConstants::sane(ts));
         w.must("sibling adaptive tier in the victim's config", &ix);
         let _ = w.init_pool_adaptive(cfg, &mx, &mz, af_index + 1, ts, att, price, None).expect("pool in the sibling tier");
+        let att_pos_plain = w.open_position(p0, attacker, lo, hi, PosKind::Plain).expect("attacker position");
+        let ix = w.ix_increase(att_pos_plain, liq, u64::MAX, u64::MAX, true);
+        w.must("attacker increase", &ix);
+        let att_pos_te = w.open_position(p0, attacker, lo, hi, PosKind::TokenExt).expect("attacker position (token extensions)");
+        let ix = w.ix_increase(att_pos_te, liq, u64::MAX, u64::MAX, true);
+        w.must("attacker increase (te)", &ix);
+        let att_bundle = w.init_bundle(attacker).expect("attacker bundle");
+        let (ix, info) = w.prep_open_bundled(att_bundle, 5, p0, lo, hi);
+        w.must("attacker open bundled", &ix);
+        w.positions.push(info);
         let sibling: std::collections::BTreeSet<Pubkey> = w.bank.accounts.keys().filter(|k| !before.contains(k)).cloned().collect();
         Rich {
             sibling,
             cfg_att,
+            att_pos_plain,
+            att_pos_te,
+            att_bundle,
             w,
             spec: spec.clone(),
             cfg,
